@@ -67,6 +67,14 @@ def run(ck, tier):
         raise Inconclusive('specification Glob.tla violates its own invariant %s (class alphabet)' % rc.violated)
     seen_s = {tuple(v['s']) for v in vecs}
     vecs += [v for v in vplib.read_dump_json(os.path.join(rc.dir, 'vectors.dump')) if tuple(v['s']) not in seen_s]
+    # characters that OTHER layers give a meaning to but the filter syntax does not: U+3000, and $ { } (a ${{ }} in a
+    # filter is not evaluated, it is pattern text)
+    ro = vplib.run_tlc('Glob', 'Glob_ordinary.cfg', dump='vectors', timeout=1200, name='ordinary')
+    ck.add_tlc('Glob exhaustive MaxLen=6 over {a $ { } SP U+3000 +}: placeholder-shaped text and unicode space are pattern characters', ro)
+    if ro.violated:
+        raise Inconclusive('specification Glob.tla violates its own invariant %s (ordinary alphabet)' % ro.violated)
+    seen_s = {tuple(v['s']) for v in vecs}
+    vecs += [v for v in vplib.read_dump_json(os.path.join(ro.dir, 'vectors.dump')) if tuple(v['s']) not in seen_s]
     # ---- G: API level, every vector
     vplib.write_jsonl(os.path.join(sd, 'in.jsonl'), [{'id': i, 's': concrete(v['s'])} for i, v in enumerate(vecs)])
     vplib.run_harness(['glob-vectors', os.path.join(sd, 'in.jsonl'), os.path.join(sd, 'out.jsonl')])
@@ -168,8 +176,33 @@ def lint_part(ck, sd, vecs, real_by_pat, limit):
     rng = random.Random(vplib.seed())
     ok = [v for v in vecs if v['s'] and all(32 <= ALPHA[x] < 127 for x in v['s'])]
     rng.shuffle(ok)
+    # always in the sample: placeholder-shaped patterns (another rule might skip "expressions") with an error
+    def has_ph(v):
+        t = concrete(v['s'])
+        i_ = t.find('${{')
+        return i_ >= 0 and t.find('}}', i_) > 0
+    ph = [v for v in ok if has_ph(v) and (v['ref'] or v['path'])]
+    ok = ph[:400] + [v for v in ok if not has_ph(v)][:limit]
     cases = []
-    for i, v in enumerate(ok[:limit]):
+    # patterns that are fine as a path and wrong as a ref (or the reverse): the same text under both kinds of
+    # filter keys of one workflow, in both orders - no state may be carried from one pattern to the next
+    cross = [v for v in ok if bool(v['ref']) != bool(v['path'])][:300]
+    for i, v in enumerate(cross):
+        pat = concrete(v['s'])
+        q = yaml_quote(pat, 'single' if i % 2 else 'double')
+        kp, kr = ('paths', 'paths-ignore')[i % 2], ('branches', 'branches-ignore', 'tags', 'tags-ignore')[i % 4]
+        first, second = ((kp, kr), (kr, kp))[(i // 4) % 2]
+        if kr.startswith('tags'):
+            # tag filters exist for push only: both keys under push
+            src = 'on:\n  push:\n    %s:\n      - %s\n    %s:\n      - %s\njobs:\n  j:\n    runs-on: ubuntu-latest\n    steps:\n      - run: echo\n' % (first, q, second, q)
+            at = {first: 4, second: 6}
+        else:
+            src = ('on:\n  pull_request:\n    %s:\n      - %s\n  push:\n    %s:\n      - %s\njobs:\n  j:\n    runs-on: ubuntu-latest\n    steps:\n      - run: echo\n'
+                   % (first, q, second, q))
+            at = {first: 4, second: 7}
+        cases.append({'v': v, 'key': '%s+%s' % (first, second), 'style': 'cross', 'src': src, 'lines': None, 'scol': 9,
+                      'cross': [(FILTER_KIND[k], ln) for k, ln in at.items()]})
+    for i, v in enumerate(ok):
         key = list(FILTER_KIND)[i % 6]
         style = 'single' if (i // 6) % 2 == 0 else 'double'
         indent = ' ' * (2 + (i % 3) * 2)
@@ -197,9 +230,21 @@ def lint_part(ck, sd, vecs, real_by_pat, limit):
         if o.get('err'):
             raise Inconclusive('Lint failed on a rendered workflow: ' + o['err'])
         # relation between two real outputs: API-level errors of this pattern vs. diagnostics of the linter
-        exp = real_by_pat[tuple(c['v']['s'])][FILTER_KIND[c['key']]]
         got = sorted((d['line'], d['col']) for d in (o['diags'] or []) if d['kind'] == 'glob')
-        other = [d for d in (o['diags'] or []) if d['kind'] != 'glob']
+        if c.get('cross'):
+            other = [d for d in (o['diags'] or []) if d['kind'] != 'glob' and not (d['kind'] == 'expression' and '${{' in c['src'])]
+            if other:
+                raise Inconclusive('rendered workflow has unrelated diagnostics: %r in %r' % (other[:2], c['src']))
+            want = sorted((ln, c['scol'] + 1 + (e['col'] - 1 if e['col'] else 0)) for kind, ln in c['cross'] for e in real_by_pat[tuple(c['v']['s'])][kind])
+            if got != want:
+                ck.violation('lint:cross-kind', 'pattern %r under %s in one workflow: diagnostics at %s, the validators\' own errors for each kind '
+                             'mapped by the position rule give %s' % (concrete(c['v']['s']), c['key'], got, want),
+                             {'kind': 'lint', 'key': c['key'], 'style': 'cross', 'src': c['src'], 'expected_positions': want,
+                              'observed_positions': got, 'pattern': concrete(c['v']['s'])})
+            continue
+        exp = real_by_pat[tuple(c['v']['s'])][FILTER_KIND[c['key']]]
+        # (placeholder-shaped text in a filter also gets the expression rule's diagnostics: not this property's business)
+        other = [d for d in (o['diags'] or []) if d['kind'] != 'glob' and not (d['kind'] == 'expression' and '${{' in c['src'])]
         if other:
             # the rendering itself must be clean apart from glob diagnostics
             raise Inconclusive('rendered workflow has unrelated diagnostics: %r in %r' % (other[:2], c['src']))
